@@ -132,7 +132,13 @@ func (tpl *Template) newContextForExecution(context Context) (*Template, *Execut
 	// The whitespace options rewrite the template's text tokens. This must
 	// happen exactly once per compiled template: executing it repeatedly (or
 	// concurrently) must not strip more whitespace each time.
-	tpl.trimOnce.Do(tpl.applyWhitespaceOptions)
+	// The templates this one extends are executed along with it, so they
+	// get the same treatment now - not at some later moment when one of them
+	// happens to be executed on its own (e. g. by ExecuteBlocks), which would
+	// change what this template renders from then on.
+	for t := tpl; t != nil; t = t.parent {
+		t.trimOnce.Do(t.applyWhitespaceOptions)
+	}
 
 	// Determine the parent to be executed (for template inheritance)
 	parent := tpl
